@@ -21,7 +21,7 @@ T = {
  'c18-1': ('C18', 'an instruction emitted at a node offset that is exactly a line start', 'lines/Compiler::emit_byte/post', 'caught after Compiler::emit_byte was extracted into the lines unit'),
  'c18-2': ('C18', 'a multi-line string literal earlier in the file (scanner stops counting newlines inside literals)', None, 'scanner.rs is outside reach (str/char iteration): NOT decided'),
  'c18-3': ('C18', 'zero-argument method call used directly as an argument (invoke() swallows the trailing ArgumentDelimiter on one cursor)', 'peephole/invoke/assert (lockstep)', ''),
- 'c18-4': ('C18', 'inner typed catch declines, outer frame catches (backtrace skip/take swapped in Fiber::pause_unwind)', None, 'Fiber unwind/backtrace code is outside reach: NOT decided'),
+ 'c18-4': ('C18', 'inner typed catch declines, outer frame catches (backtrace skip/take swapped in Fiber::pause_unwind)', 'unwind/Fiber::pause_unwind/post', 'missed until the unwind unit (Fiber::stack_unwind / pause_unwind under contract) was built'),
  'c01-1': ('C01', 'a NaN operand of >=', 'ops/Vm::op_greater_equal/post', ''),
  'c01-2': ('C01', '<= on two equal strings', 'ops/Vm::op_less_equal/post', ''),
  'c01-3': ('C01', '!= mixed with == or a comparison in one unparenthesised expression', 'kani:front/o01_p_infix_table', 'caught after the parser_verif hook + front harness; counterexample = token kind index'),
@@ -33,7 +33,7 @@ T = {
  'c04-1': ('C04', 'an earlier catch clause declines and a later clause of the same try matches', 'ops/Vm::op_check_handler/post', 'missed on the first run only because registry.py did not list the ops unit under C04'),
  'c04-2': ('C04', 'user error hierarchy two or more levels deep', 'ops/Vm::op_check_handler/post', 'first run UNDECIDED (ClassRef ==, Option::map_or unsupported in the stub model); caught after stub completion'),
  'c04-3': ('C04', 'loop nested inside a try executes continue (extra PopHandler)', None, 'Compiler::continue_ is outside reach: NOT decided'),
- 'c04-4': ('C04', 'error raised in a callback run by native code with the try in the native\'s caller', None, 'Fiber::stack_unwind is outside reach: NOT decided'),
+ 'c04-4': ('C04', 'error raised in a callback run by native code with the try in the native\'s caller', 'unwind/Fiber::stack_unwind/post', 'missed until the unwind unit was built; building it exposed that the PINNED code already had this defect for stack-less natives (D17, fixed 71ddc0d); patch.diff is the seed rebased onto the fixed tree, the original is patch.before-fix-71ddc0d.diff'),
  'c13-1': ('C13', 'property site sees class A, then B, then B again with the field at different indices', 'ops/InlineCache::set_property_cache/post', 'first run UNDECIDED (get_unchecked_mut in a new place); caught after the R6 unchecked-index rewrite was generalised'),
  'c13-2': ('C13', 'callable field invoked twice from one site with different callables', 'ops/Vm::op_invoke/post', ''),
  'c13-3': ('C13', 'class factory applied twice in one inheritance chain (super site keyed by receiver class)', 'ops/Vm::op_super_invoke/post', ''),
